@@ -34,6 +34,14 @@ EXE = "drv_c02"
 
 
 # ---------------------------------------------------------------------------------------------------- component level
+def innermost(bad: List[dict]) -> List[dict]:
+    """a failure inside a child shows in every ancestor too: keep the innermost object per check"""
+    def inner(b):
+        pre = "" if b["path"] == "/" else b["path"]
+        return not any(o is not b and o.get("check") == b.get("check") and o["path"] != b["path"] and o["path"].startswith(pre + "/") for o in bad)
+    return [b for b in bad if inner(b)]
+
+
 def tree_oracle(cfg: dict, ev: Dict[str, List[int]]) -> List[dict]:
     """The property's oracle on EVERY object of a freshly constructed tree (a second instance, so that the main sequence keeps its
     memory): the default observation is a member of the space; space, default observation and an all-present, all-ON observation
@@ -78,11 +86,7 @@ def tree_oracle(cfg: dict, ev: Dict[str, List[int]]) -> List[dict]:
         if rig.canon(o.default_observation) != before[path]:
             bad.append({"class": type(o).__name__, "check": "default_observation unchanged by observe", "path": path,
                         "detail": rig.first_diff(before[path], rig.canon(o.default_observation))})
-    # a failure inside a child shows in every ancestor too: keep the innermost object per check
-    def inner(b):
-        pre = "" if b["path"] == "/" else b["path"]
-        return not any(o is not b and o["check"] == b["check"] and o["path"] != b["path"] and o["path"].startswith(pre + "/") for o in bad)
-    return [b for b in bad if inner(b)]
+    return innermost(bad)
 
 
 def flatten_probe(sp, value, want=None):
@@ -143,7 +147,7 @@ def component_case(rng: Rng, n_states: int, defects: bool, invalid: bool = False
     changed = [{"class": type(o).__name__, "path": path, "detail": rig.first_diff(before[path], rig.canon(o.default_observation))}
                for path, o in nodes if rig.canon(o.default_observation) != before[path]]
     return {"capture": capture, "facts": facts, "lines": lines, "impl": impl, "space": cspace, "states": states,
-            "tree": tree_oracle(facts["cfg"], ev), "defaults_changed": changed, "objects": len(nodes), "flat_bad": flat_bad}
+            "tree": tree_oracle(facts["cfg"], ev), "defaults_changed": innermost(changed), "objects": len(nodes), "flat_bad": flat_bad}
 
 
 def length_relations(ctx: Ctx, cfg: dict) -> None:
@@ -277,7 +281,7 @@ def env_recipes(ctx: Ctx, rng: Rng, truth: bool = False) -> List[dict]:
     schedules whose episodes observe different things (and one whose episodes are all alike)."""
     out: List[dict] = []
     scen = rig.SCENARIOS if ctx.thorough else rig.SCENARIOS[:6]
-    eps, steps = ctx.scale(2, 3), ctx.scale(20, 100)
+    eps, steps = ctx.scale(2, 3), ctx.scale(30 if truth else 20, 100)
 
     def add(family, label, **kw):
         out.append(dict({"family": family, "label": label, "traj_seed": rng.next(), "variant_seed": rng.next(), "episodes": eps, "steps": steps,
@@ -287,10 +291,11 @@ def env_recipes(ctx: Ctx, rng: Rng, truth: bool = False) -> List[dict]:
         add("shipped", short, rel=rel)
         for i in range(ctx.scale(1, 3)):
             add("toggle", f"{short}#toggle{i}", rel=rel, chaos=truth)
-        for i in range(ctx.scale(1, 3)):
+        for i in range(ctx.scale(2 if truth else 1, 3)):
             add("regen", f"{short}#regen{i}", rel=rel, chaos=truth)
-    for i in range(ctx.scale(4, 16)):
-        add("generated", f"generated#{i}", topology=["lan", "routed", "dmz"][i % 3], size=1 + (i // 3) % 2, episodes=2, steps=ctx.scale(14, 60), chaos=truth and i % 2 == 0)
+    for i in range(ctx.scale(9 if truth else 4, 18)):
+        add("generated", f"generated#{i}", topology=["lan", "routed", "dmz"][i % 3], size=1 + (i // 3) % 2, episodes=2, steps=ctx.scale(20 if truth else 14, 60),
+            chaos=truth and i % 3 != 2)
     for rel in env.SCHEDULE_DIRS:
         add("schedule-shipped", rel.rsplit("/", 1)[-1] + "@" + rel.split("/")[0], rel=rel, episodes=ctx.scale(4, 6), steps=ctx.scale(6, 30))
     if ctx.thorough:
